@@ -10,8 +10,8 @@ open Omaha
 
 /-- The wire summary of a request built from `b`. -/
 def mkReq (k : ReqKind) (b : Request.Builder) (n : Option Nat) : WireReq :=
-  { kind := k, source := b.params.source, sessionDraw := b.sessionId.map Der.beNat,
-    requestDraw := b.requestId.map Der.beNat, nonceDraw := n, apps := wireApps b }
+  { kind := k, source := b.params.source, sessionDraw := b.sessionId.map guidOf,
+    requestDraw := b.requestId.map guidOf, nonceDraw := n, apps := wireApps b }
 
 /-- Every request among these actions was built from a builder satisfying `B`. -/
 def HttpFrom (B : Request.Builder → Prop) : Action → Prop
